@@ -783,7 +783,14 @@ pub fn upload(server: &mut Server, cfg: &UlCfg, ids: &mut Ids) -> (Vec<Finding>,
 const LONG: Duration = Duration::from_secs(3600);
 
 fn gen_reply_opts(r: &mut Rng) -> Vec<(u16, Vec<u8>)> {
-    match r.below(6) {
+    match r.below(8) {
+        // a notification (or the reply that establishes an observation): Observe is one of the
+        // application's options like any other and is repeated on every block
+        6 => {
+            let n = r.usize_below(4);
+            vec![(6, r.bytes(n)), (12, vec![50]), (14, vec![5])]
+        }
+        7 => vec![(4, r.bytes(2)), (6, vec![r.next_u64() as u8]), (14, vec![1, 0])],
         0 => vec![],
         1 => vec![(12, vec![50])],
         2 => vec![(4, r.bytes(4)), (12, vec![]), (14, vec![60])],
@@ -1434,11 +1441,17 @@ fn upload_while_old_reply_is_fetched(rep: &mut Report, r: &mut Rng) {
                 AppReply { code: 0x44, options: vec![], payload: vec![] }
             };
             let mut failed = false;
+            // half of the uploads state a Block2 preference for the eventual reply on their non-final
+            // blocks already (early negotiation): those blocks are still upload blocks, to be continued
+            let b2_hint: Option<u8> = if witness.len() % 2 == 0 { Some((witness.len() / 2 % 7) as u8) } else { None };
             for i in 0..nblocks {
                 let last = i + 1 == nblocks;
                 let mut u = ReqSpec::new(code, &["r"]);
                 next(&mut u);
                 u.block1 = Some((i as u32, !last, szx));
+                if let (false, Some(h)) = (last, b2_hint) {
+                    u.block2 = Some((0, false, h));
+                }
                 u.payload = body[i * s..((i + 1) * s).min(body.len())].to_vec();
                 let e = server.exchange(&u.bytes(), 1, &mut up_app);
                 if !last && (e.app_called || e.reply_code() != Some(0x5f)) {
@@ -1688,6 +1701,67 @@ fn deep_resume(rep: &mut Report, r: &mut Rng) {
     }
 }
 
+/// The client's size also binds replies the application renders later for the same request (a
+/// notification, a separate response): after an exchange that ended in a single block, or after
+/// the last block of a transfer was fetched, a fresh long reply for that request goes through
+/// intercept_response alone.  Budgets leave more than 32 bytes to spare, so exactly the client's
+/// size has to be used.
+fn rerendered_replies(rep: &mut Report, r: &mut Rng) {
+    for c in 0..=6u8 {
+        for variant in 0..4u32 {
+            rep.eval();
+            let size = szx_size(c);
+            let m = (size + 60 + r.usize_below(200)).min(1280);
+            let mut server = Server::new(m, Duration::from_secs(3600));
+            let mut q = ReqSpec::new(1, &["nt"]);
+            q.mid = 0x7000 + variant as u16;
+            q.block2 = Some((0, false, c));
+            let first_len = match variant % 2 {
+                0 => r.usize_below(size + 1), // one block, nothing cached
+                _ => 2 * size + 1 + r.usize_below(size - 1), // three blocks, fetched to the end
+            };
+            let witness = format!("GET [nt] Block2 0/0/{} with budget {}: first reply {} bytes{}, then a fresh reply of {} bytes for the same request through intercept_response alone", size, m, first_len, if variant % 2 == 1 { " (all blocks fetched)" } else { "" }, (m + 100).max(3 * size + 10));
+            set_case_str(&witness);
+            let fb = body_bytes(r.next_u64(), first_len);
+            let mut app1 = move |_r: &coap_lite::CoapRequest<CEp>| AppReply::content(fb.clone());
+            let ex = server.exchange(&q.bytes(), 3, &mut app1);
+            if let Step::Panic(p) = &ex.intercept_request {
+                rep.violation(&p.sig(), p.text(), witness);
+                continue;
+            }
+            if variant % 2 == 1 {
+                for n in 1..3u32 {
+                    let mut f = ReqSpec::new(1, &["nt"]);
+                    f.mid = 0x7100 + n as u16;
+                    f.block2 = Some((n, false, c));
+                    let _ = server.exchange(&f.bytes(), 3, &mut app1);
+                }
+            }
+            if variant >= 2 {
+                // other clients' traffic in between
+                for i in 0..5u32 {
+                    noise_request(&mut server, 3 * i + 3, 3, &["nt".to_string()], 1);
+                }
+            }
+            // (long enough to contain the block the client asked for last - block 2 after a fetched transfer)
+            let nb = body_bytes(r.next_u64(), (m + 100).max(3 * size + 10));
+            let mut app2 = move |_r: &coap_lite::CoapRequest<CEp>| AppReply::content(nb.clone());
+            let ex2 = server.rerender(&q.bytes(), 3, &mut app2);
+            if let Some(Step::Panic(p)) = &ex2.intercept_response {
+                rep.violation(&p.sig(), p.text(), witness);
+                continue;
+            }
+            match (ex2.block_of(CoapOption::Block2), ex2.reply_len) {
+                (Some(b), Some(l)) if b.size() == size && l <= m => {
+                    rep.count("rerendered_replies_at_the_clients_size");
+                    rep.distinct(mix(&[0x4E7, c as u64, variant as u64]));
+                }
+                (b, l) => rep.violation("re-rendered-reply:client-size-not-honoured", format!("block option {:?}, reply length {:?}: {}", b.map(|b| (b.num, b.more, b.size())), l, ex2.summary()), witness),
+            }
+        }
+    }
+}
+
 pub fn run_c10(ctx: &mut Ctx) {
     let mut r = ctx.rng(10);
     let (level, budget, shard, nshards) = (ctx.level, ctx.budget, ctx.shard, ctx.nshards);
@@ -1695,6 +1769,9 @@ pub fn run_c10(ctx: &mut Ctx) {
     let mut ids = Ids { mid: 0x3000, tok: 13 };
     if shard == 2 && level > 0 {
         deep_resume(rep, &mut r);
+    }
+    if level > 0 && shard == 1 % nshards {
+        rerendered_replies(rep, &mut r);
     }
     // directed: budgets with M - overhead - 12 in a +-3 band around every 2^k, and overhead+28..+80
     let mut idx = 0u64;
